@@ -5,8 +5,12 @@ A leg is one build configuration of the harness running one part of a driver in 
 """
 
 
-def leg(cfg, shards=1, part=None, scale=None, timeout=None, weight=1, env=None):
+def leg(cfg, shards=1, part=None, scale=None, timeout=None, weight=1, env=None, of=None, budget=None):
     d = {"cfg": cfg, "shards": shards, "weight": weight}
+    if of:
+        d["of"] = of          # shards 0..shards-1 of `of`: an evenly strided sample of the enumeration
+    if budget:
+        d["budget"] = budget  # stop starting new cases after this many monitored comparisons (per shard)
     if part:
         d["part"] = part
     if scale:
@@ -67,3 +71,107 @@ PLANS["C01"] = {
                     "lengths above ~10^6 bits are not explored"],
 }
 PLANS["C01"]["require"]["thorough"] = PLANS["C01"]["require"]["quick"]
+
+PLANS["C17"] = {
+    "driver": "c17",
+    "rule": ("cases = every n in 0..=64 for the masks; every bit count 1..=64 x many values for reverse_low; 2^k-1, 2^k, 2^k+1 and random magnitudes for bit_len and the rounding/conversion "
+             "helpers inside their documented domains; every (offset 0..191, width 1..=64) x values x 3 backgrounds for write_int/read_int with all 256 bits compared with a bit-array model; "
+             "select on every 1-bit and 2-bit word, every byte value in every byte position, every 16-bit pattern in each quarter and random words x every legal rank, in a BMI2 build and in a "
+             "portable build; distinct = digest of (primitive, argument class or word); non-trivial = word has a set bit / every listed case"),
+    "legs": {
+        "quick": [leg("rel", 16), leg("rel-nobmi", 16), leg("dbg", 8, "rw"), leg("bounds", 8, "select"), leg("miri", 8, "select_miri", budget=3000), leg("miri", 4, "masks", scale=200, budget=3000)],
+        "thorough": [leg("rel", 16), leg("rel-nobmi", 16), leg("dbg", 16), leg("bounds", 16), leg("miri", 16, "select_miri", budget=20000), leg("miri", 8, "masks", scale=100, budget=20000),
+                     leg("miri-native", 8, "select_miri", budget=20000)],
+    },
+    "require": {
+        "quick": [("build", "rel-nobmi", "bmi2", False), ("build", "rel", "bmi2", True), ("probe", "select_table", 1000), ("probe", "select_pdep", 1000),
+                  ("probe", "write_int_straddle", 1000), ("probe", "write_int_single", 1000), ("probe", "read_int_straddle", 1000), ("build", "miri", "miri", True)],
+    },
+    "level_text": ("exploration with exhaustive sub-spaces: every (offset, width) pair for read/write and every mask argument is enumerated, select is driven over structured and random words in both "
+                   "compiled paths (PDEP and lookup table, the latter also under Miri so that table indices are bounds-checked by the interpreter), each answer compared with a naive definition"),
+    "level_note": "trusts the naive loops used as definitions; values per (offset,width) and random words are samples",
+    "technique": "runtime monitoring: naive-definition oracle over exhaustive/structured inputs in BMI2 and portable builds, Miri for the table path",
+    "assumptions": ["the build configuration actually compiled is read back from cfg!(target_feature) by the harness"],
+}
+PLANS["C17"]["require"]["thorough"] = PLANS["C17"]["require"]["quick"]
+
+PLANS["C05"] = {
+    "driver": "c05",
+    "rule": ("cases = operation histories on RawVector (16 kinds of operation, 1..200 steps, lengths hovering around word boundaries, alternating fill values) and IntVector (20 kinds, every width 1..=64, "
+             "values wider than the width), plus every history of <= L steps over fixed 9-/8-operation alphabets; after EVERY step: content vs model, tail invariant via AsRef<[u64]>, "
+             "==/serialized bytes/count_ones vs a freshly built vector; distinct = digest of the operation-kind sequence (and width); non-trivial = at least 2 steps"),
+    "legs": {
+        "quick": [leg("rel", 16), leg("dbg", 16), leg("miri", 8, "raw_exh", of=512, budget=600)],
+        "thorough": [leg("rel", 16), leg("dbg", 16), leg("rel-nobmi", 8), leg("miri", 12, "raw_exh", of=128, budget=4000), leg("miri", 8, "int_exh", of=128, budget=4000)],
+    },
+    "require": {
+        "quick": [("probe", "tail_cleared", 1), ("probe", "write_int_straddle", 1), ("build", "dbg", "overflow_checks", True)],
+    },
+    "level_text": ("exploration: random and exhaustively enumerated operation histories run against the real vectors while a Vec<bool>/Vec<u64> model checks content, the tail invariant and canonical "
+                   "form after every single operation"),
+    "level_note": "trusts the Vec-based models; capacity is deliberately not checked; only in-contract arguments are used (set below len, widths <= 64)",
+    "technique": "runtime monitoring: history + executable sequential model, invariant checked at every step",
+    "assumptions": ["histories are bounded (<= 200 steps, <= 520 bits / 130 items)"],
+}
+PLANS["C05"]["require"]["thorough"] = PLANS["C05"]["require"]["quick"]
+
+PLANS["C02"] = {
+    "driver": "c02",
+    "rule": ("cases = (a) every subset of every universe n <= L through the builder routes (set/try_set/extend), conversions and try_from_iter, all arguments 0..n+2 plus extreme values; "
+             "(b) (n, m) pairs solved for from the parameter rule so that each low width 1..=63 is chosen, universes up to usize::MAX, six position layouts (ends, one bucket, bucket edges, "
+             "empty stretches, dense runs, uniform); (c) m = 0 for every n = 2^k +-1 up to the memory bound, m = 1, m = n, m = n-1; (d) adversarial select_zero layouts with 17..4000 zero runs; "
+             "the width actually chosen is read from the serialized bytes; distinct = digest of (observed width, m, n class, layout, positions); non-trivial = 0 < m < n or n <= 1"),
+    "legs": {
+        "quick": [leg("rel", 16), leg("dbg", 16), leg("miri", 6, "small", of=512, budget=3000), leg("miri-wrap", 6, "widths", of=12, scale=150, budget=2500)],
+        "thorough": [leg("rel", 16), leg("dbg", 16), leg("rel-nobmi", 16), leg("miri", 12, "small", of=128, budget=20000), leg("miri-wrap", 12, "widths", of=12, scale=60, budget=15000)],
+    },
+    "require": {
+        "quick": [("set_size", "sparse_low_width", 63), ("probe", "sparse_fzr_binary", 1), ("probe", "sparse_fzr_linear", 1), ("counter", "widths.on_target", 63)],
+    },
+    "level_text": ("exploration: the real SparseVector is built through every builder route and queried while a sorted-list model (binary search, cross-checked against a Vec<bool> model) checks every answer; "
+                   "the generator is steered so that every low width 1..=63 and both phases of select_zero are reached, which the run proves from the serialized width field and probes"),
+    "level_note": "trusts the sorted-list model; universes are sampled, tiny m/n with huge n is bounded by memory exactly as the quantifier says",
+    "technique": "runtime monitoring: online reference-model oracle, parameter-regime-directed generation, Miri on the small and huge-universe slices",
+    "assumptions": ["positions per vector <= ~70k", "m = 0 explored up to n = 2^24 (quick) / 2^27 (thorough)"],
+}
+PLANS["C02"]["require"]["thorough"] = PLANS["C02"]["require"]["quick"]
+
+PLANS["C03"] = {
+    "driver": "c03",
+    "rule": ("cases = (a) every bit pattern of length <= L built through four decompositions of the same run list (maximal runs, random splits, one bit at a time, splits with interleaved set_len) and "
+             "without a final set_len; (b) run lists whose gaps/lengths are drawn per code-unit class 1..22 under six profiles, 0..34000 runs (1..1000+ blocks), run at position 0 or not, "
+             "trailing zeros or not; (c) total lengths 2^63-1, 2^63, 2^63+1, 2^63+2^61, 2^64-2^20, usize::MAX-65, usize::MAX-64 with eight shapes incl. a first block that holds only a run starting at 0; "
+             "queries at every run start/end +-2, block starts, and extreme arguments; run_iter compared with the maximal runs and offset/rank/rank_zero after each item; "
+             "distinct = digest of (part, run count, profile, first 64 runs); non-trivial = has set and unset bits or is a boundary case"),
+    "legs": {
+        "quick": [leg("rel", 16), leg("dbg", 16), leg("miri", 6, "small", of=512, budget=3000), leg("miri-wrap", 6, "huge", of=8, scale=4, budget=2500)],
+        "thorough": [leg("rel", 16), leg("dbg", 16), leg("rel-nobmi", 8), leg("miri", 12, "small", of=128, budget=20000), leg("miri-wrap", 12, "huge", of=12, scale=2, budget=15000)],
+    },
+    "require": {
+        "quick": [("set_size", "rl_code_units", 20), ("probe", "rl_flush_new_block_padded", 1), ("probe", "rl_flush_new_block_exact", 1), ("probe", "sample_index_multi", 1),
+                  ("probe", "rl_iter_cross_block", 1), ("counter", "blocks_class.9", 1), ("counter", "blocks_class.64-999", 1)],
+    },
+    "level_text": ("exploration: the real RLVector is built from generated run lists (all code-unit classes, 1..1000+ blocks, lengths up to usize::MAX-64) and queried while a run-list model checks every answer "
+                   "and the run iterator; probes prove that early-closed and exactly-full blocks, multi-sample indexes and block crossings were reached"),
+    "level_note": "trusts the run-list model (cross-checked against Vec<bool>); lengths in the last 64 values of usize are outside the library's documented domain and only reported as information",
+    "technique": "runtime monitoring: online reference-model oracle over code-unit-class-directed run lists, Miri on small and huge slices",
+    "assumptions": ["at most ~34000 runs per vector"],
+}
+PLANS["C03"]["require"]["thorough"] = PLANS["C03"]["require"]["quick"]
+
+PLANS["C15"] = {
+    "driver": "c15",
+    "rule": ("cases = (a) every non-decreasing list of <= K values over universes <= U incl. overfull ones, three builder routes and try_from_iter; (b) generated multisets with duplicate runs of 2..500 at 0, "
+             "at n-1 and next to bucket boundaries, universes up to 2^40; (c) try_from_iter on every sequence over {0..3} of length <= L (accept iff non-decreasing, universe = last+1) and on long sorted / "
+             "once-inverted sequences; zero-side queries are not checked (documented as unsupported); distinct = digest of (universe, value list); non-trivial = at least two values"),
+    "legs": {
+        "quick": [leg("rel", 16), leg("dbg", 16), leg("miri", 8, "small", of=256, budget=3000)],
+        "thorough": [leg("rel", 16), leg("dbg", 16), leg("miri", 12, "small", of=64, budget=20000), leg("miri-wrap", 8, "from_iter", of=64, budget=20000)],
+    },
+    "require": {"quick": [], "thorough": []},
+    "level_text": ("exploration: multiset sparse vectors are built exhaustively at small scope and by directed generation, and every present-value query, both set-bit iterator directions and both bit "
+                   "iterator directions are compared with a sorted-list-with-duplicates model"),
+    "level_note": "trusts the sorted-list model; semantics of zero-side queries on multisets are not defined by the library and are not checked",
+    "technique": "runtime monitoring: online reference-model oracle, exhaustive small scope + directed duplicates",
+    "assumptions": [],
+}
